@@ -260,6 +260,46 @@ def _suite_pairs(ctx, res, cases):
     res.sample({"suite": "reuse on/off", "case_id": case["id"], "config": case["config"], "svg0": case["svgs"][0][:400]})
 
 
+def suite_unsafe_reuse(ctx, res, n):
+    """the guard of C06.unsafe_never_reused / reuse_guard on the real code: whatever affine picosvg offers between a shape and its donor, a placing
+    transform with an entry outside Fixed 16.16 is never handed on (it cannot be written into a PaintTransform: the reuse-on build would die or
+    wrap around while the reuse-off build is fine).  Scripted oracle in place of picosvg's normalize/affine_between."""
+    from nanoemoji import glyph_reuse
+    from picosvg.svg_transform import Affine2D
+
+    rng = ctx.rng
+    MAXF = (2 ** 31 - 1) / 65536
+    edge = [32768, 32767.99999, 32768.5, 40000, 65536, 1e6, -32768.00002, -32769, -40000, -1e6, MAXF + 0.0001, -32768, MAXF]
+    cases = []
+    for _ in range(n):
+        aff = [rng.choice([1, -1, 0.5, 2, 0]), rng.choice([0, 0.25, -1]), rng.choice([0, -0.25, 1]), rng.choice([1, -1, 0.5]), rng.randint(-900, 900), rng.randint(-900, 900)]
+        for _k in range(rng.choice([1, 1, 2])):
+            aff[rng.randrange(6)] = rng.choice(edge)
+        if aff[0] * aff[3] - aff[1] * aff[2] == 0:
+            aff[0] = 3
+        cases.append(tuple(aff))
+    orig_ab, orig_norm = glyph_reuse.affine_between, glyph_reuse.normalize
+    try:
+        glyph_reuse.normalize = lambda path, tolerance: type("P", (), {"d": "M0,0 L1,0 L0,1 Z"})()
+        for aff in cases:
+            glyph_reuse.affine_between = (lambda a: (lambda s1, s2, tolerance: Affine2D(*a)))(aff)
+            cache = glyph_reuse.GlyphReuseCache(0.1)
+            cache.add_glyph("donor", "M0,0 L10,0 L0,10 Z")
+            try:
+                r = cache.try_reuse("M5,5 L15,5 L5,15 Z")
+            except Exception as e:  # noqa
+                r = e
+            safe = all(-32768 <= v <= MAXF for v in aff)
+            res.count(key=("unsafe-reuse", aff), nontrivial=not safe)
+            res.stat("unsafe-reuse:" + ("fits" if safe else "beyond-fixed"))
+            if not safe and r is not None and not isinstance(r, Exception):
+                res.add_cex("try_reuse hands on a placing transform with an entry outside Fixed 16.16 (a PaintTransform cannot hold it)",
+                            {"call": "GlyphReuseCache.try_reuse", "oracle_affine": list(aff), "returned": [float(v) for v in r.transform]},
+                            {"site": "reuse-unsafe-transform", "affine": list(aff)})
+    finally:
+        glyph_reuse.affine_between, glyph_reuse.normalize = orig_ab, orig_norm
+
+
 def run(ctx, res):
     nano.init()
     res.rule = ("generated SVG sets in which shapes recur under translations, rotations, mirrors, uniform/non-uniform scales and shears "
@@ -272,10 +312,13 @@ def run(ctx, res):
         if "err" not in on and "err" not in off:
             check_pair(ctx, res, case, on, off)
     suite_migrate_model(ctx, res, ctx.budget(200, 4000))
+    suite_unsafe_reuse(ctx, res, ctx.budget(300, 6000))
     suite_pairs(ctx, res, ctx.budget(36, 900), n_tiny=ctx.budget(16, 300))
 
 
 def search(ctx, res, broken):
+    nano.init()
+    suite_unsafe_reuse(ctx, res, 5000)
     suite_pairs(ctx, res, 200, n_tiny=80)
 
 
